@@ -326,6 +326,19 @@ func (c *ixCtx) factsAt(b *ssa.BasicBlock, params map[ssa.Value]string) map[stri
 	return out
 }
 
+// edgeFacts: facts at the end of block p, plus the branch fact of the edge p → to.
+func (c *ixCtx) edgeFacts(p, to *ssa.BasicBlock, params map[ssa.Value]string) map[string]int {
+	out := c.factsAt(p, params)
+	if iff, ok := p.Instrs[len(p.Instrs)-1].(*ssa.If); ok && len(p.Succs) == 2 && p.Succs[0] != p.Succs[1] {
+		if p.Succs[0] == to {
+			c.lenFacts(iff.Cond, true, params, out, 0)
+		} else if p.Succs[1] == to {
+			c.lenFacts(iff.Cond, false, params, out, 0)
+		}
+	}
+	return out
+}
+
 // predicateSummary: facts that hold whenever the bool function returns true, expressed
 // over its parameters (§i§ placeholders).
 func (c *ixCtx) predicateSummary(fn *ssa.Function) map[string]int {
@@ -451,8 +464,24 @@ func (c *ixCtx) minLen(v ssa.Value, facts map[string]int, params map[ssa.Value]s
 		}
 		seen[x] = true
 		m := ixInf
-		for _, e := range x.Edges {
-			if n := c.minLen(e, facts, params, seen, mono, depth+1); n < m {
+		for i, e := range x.Edges {
+			// what is known on the edge: the facts at the end of the predecessor plus the
+			// branch edge into the join (`if len(x) == 0 { x = append(x, y) }`)
+			ef := facts
+			if preds := x.Block().Preds; i < len(preds) && depth < 5 {
+				ef = c.edgeFacts(preds[i], x.Block(), params)
+				for k, v := range facts {
+					if v > ef[k] {
+						ef[k] = v
+					}
+				}
+			}
+			n := c.minLen(e, ef, params, seen, mono, depth+1)
+			ek := c.exprKey(e, params, 0)
+			for n < ixInf && ef[fmt.Sprintf("≠%d≠%s", n, ek)] == 1 {
+				n++
+			}
+			if n < m {
 				m = n
 			}
 		}
